@@ -151,3 +151,49 @@ Fixpoint cmon (cfg : config) (m : cmst) (i : Z) (evs : list event) : cmst + list
       | inr code => inr [ERR_PROPERTY; i; code]
       end
   end.
+
+(* ---- the implementation's scripted during-trim interleavings, in the event
+        alphabet ---------------------------------------------------------------
+   A during-trim case (wire kind 2, see Spec.v) is: a sequential prefix, then
+   TrimOpenConns inside which - after its complete candidate snapshot - the
+   script's operations took their critical sections, then the closes.  That is
+   the LTS schedule  ABegin, ASnap p for every peer, ASnapEnd, <sort>, AOp
+   script.., <selection>, AFinish, whose events the monitor judges; the entries
+   the implementation reports as pruned are rendered as EPrune events. *)
+Definition reindex (i : Z) (d : list Z) : list Z :=
+  match d with [e; _; c] => [e; i; c] | _ => d end.
+
+Definition monitor_during2 (cfg : config) (np : nat) (pre : list (op * obs)) (script : list op)
+           (x : obs) (post : list (op * obs)) : list Z :=
+  match mon_prefix cfg np (ainit cfg) 0 pre with
+  | inr d => d
+  | inl (a0, i) =>
+      match cmon cfg (cm_init a0) i ([ETrimBegin] ++ map ESnap (seq 0 np) ++ [ESnapEnd] ++ map EOp script) with
+      | inr d => reindex i d
+      | inl m1 =>
+          let pruned := filter (fun p => let a := ap_at (m_a m1) p in
+                                         a_known a && is_nil (a_conns a)
+                                         && negb (fst (fst (nth p (o_peers x) (true, 0, 0)))))
+                               (seq 0 np) in
+          match cmon cfg m1 i (map EPrune pruned ++ [EClosed (o_closed x)]) with
+          | inr d => reindex i d
+          | inl m2 =>
+              let a2 := m_a m2 in
+              if negb (o_count x =? acount a2) then [ERR_PROPERTY; i; 3]
+              else if negb (list_eqb pobs_eqb (o_peers x) (map (expect_peer a2) (seq 0 np))) then [ERR_PROPERTY; i; 4]
+              else mon_run cfg np a2 (i + 1) post
+          end
+      end
+  end.
+
+Definition conform_case (l : list Z) : list Z := Spec.conform_case l.
+
+Definition monitor_case (l : list Z) : list Z :=
+  match l with
+  | 2 :: _ =>
+      match decode_during l with
+      | Some (cfg, np, pre, script, x, post) => monitor_during2 cfg np pre script x post
+      | None => [ERR_MALFORMED; 2]
+      end
+  | _ => Spec.monitor_case l
+  end.
